@@ -198,7 +198,12 @@ func c06Gen(r *RNG, id string, prop string) *Case {
 		c.Tag("duplicate-query-id")
 	}
 	c.Set("qnames", strings.Join(qn, ",")).Set("qseqs", strings.Join(qs, ","))
-	c.Set("tnames", strings.Join(randNames(r, nt, "T"), ",")).Set("tseqs", strings.Join(ts, ","))
+	tnm := randNames(r, nt, "T")
+	if r.Chance(1, 6) { // a target filed under the name of a query (an older version of the same sample): a name is not an identity
+		tnm[r.Intn(nt)] = qn[0]
+		c.Tag("target-named-like-query")
+	}
+	c.Set("tnames", strings.Join(tnm, ",")).Set("tseqs", strings.Join(ts, ","))
 	c.SetInt("threads", r.PickInt([]int{0, 1, 2, 4, 16}))
 	k, dn, dd := 0, 0, 0
 	if prop == "C07" {
